@@ -277,6 +277,11 @@ def gen_c17(rng, n, tier):
             if not ok:
                 tags.add("untypable:" + c + "." + m)
                 continue
+            if (c, m) == ("interchain", "HandleIBTPData") and r.random() < 0.7:
+                # an IBTP that would be accepted right now if it came the proper way (after the warm-up traffic): the next
+                # request of the pair c1:s1 -> c2:s1, or the receipt of the open request c2:s1 -> c1:s1
+                args = [r.choice(["ibtp:c1:s1,c2:s1,2,req,0", "ibtp:c2:s1,c1:s1,1,ok,0", "ibtp:c2:s1,c1:s1,1,fail,0", "ibtp:c1:s2,c2:s1,1,req,0"])]
+                tags.add("internal:acceptable-ibtp")
             ops.append("q dump")
             ops.append(f"block bvm {caller} {c} {m} " + " ".join(args))
             ops.append("q dump")
